@@ -13,7 +13,7 @@ import (
 //   - on a "power loss" crash a chosen prefix of the un-synced suffix survives (undo log).
 type SimDB struct {
 	mu       sync.Mutex
-	mem      *dbm.MemDB
+	mem      *cowMem // copy-on-write table: readers see whole batches and iterate over snapshots, as on a real disk database
 	writes   int64 // mutating operations applied so far (since creation/clone)
 	crashAt  int64 // 0 = disarmed; otherwise panic before the crashAt-th write counted from armBase
 	armBase  int64
@@ -38,7 +38,7 @@ type crashSentinel struct {
 	Write int64
 }
 
-func NewSimDB() *SimDB { return &SimDB{mem: dbm.NewMemDB(), stats: &SimDBStats{}} }
+func NewSimDB() *SimDB { return &SimDB{mem: newCowMem(), stats: &SimDBStats{}} }
 
 // Clone makes an independent deep copy of the durable+volatile content (used for crash-point
 // enumeration and twins). The clone is disarmed.
@@ -46,18 +46,7 @@ func (d *SimDB) Clone() *SimDB {
 	d.mu.Lock()
 	defer d.mu.Unlock()
 	n := NewSimDB()
-	it, err := d.mem.Iterator(nil, nil)
-	if err != nil {
-		panic(err)
-	}
-	defer it.Close()
-	for ; it.Valid(); it.Next() {
-		k := cpBytes(it.Key())
-		v := cpBytes(it.Value())
-		if err := n.mem.Set(k, v); err != nil {
-			panic(err)
-		}
-	}
+	n.mem = d.mem.snapshot() // O(1): the two tables share unchanged nodes and copy on write
 	return n
 }
 
@@ -227,14 +216,16 @@ func (b *simBatch) write(sync bool) error {
 	defer d.mu.Unlock()
 	d.beforeWrite()
 	u := make(undoOp, 0, len(b.ops))
+	t := d.mem.begin()
 	for _, op := range b.ops {
 		u = append(u, d.capture(op.k))
 		if op.del {
-			_ = d.mem.Delete(op.k)
+			t.Delete(kvItem{k: op.k})
 		} else {
-			_ = d.mem.Set(op.k, op.v)
+			t.ReplaceOrInsert(kvItem{k: op.k, v: op.v})
 		}
 	}
+	d.mem.commit(t) // readers see the whole batch or nothing of it
 	if sync {
 		d.synced()
 	} else {
